@@ -42,6 +42,16 @@ CLAIMED["C03"] = dict(
    note="known finding recorded in known_findings.txt; newStyleFor/findStyleAttributes are checked only at the listed call/map-update sites (their other obligations are unclaimed: havoc abstraction of maps, iterators and unknown callees); machine-int-as-math",
    ref="DESIGN.md §4 C03")
 
+CLAIMED["C18"] = dict(
+   text="The SVG path-data interpreter is under contract and proved for all argument lists: every command method of pathParser (moveTo/lineTo incl. implicit repetition, H/V, C/S/Q/T with smooth reflection, closepath, arcs) appends exactly the segments SVG 1.1 §8.3 defines, absolute vs relative, with the current point / sub-path start / last control point bookkeeping as representation invariants across argument groups; quadraticToCubic is degree elevation (Bezier identity lemma for all t); reflection is point reflection; an arc segment ends at the given end point and successive arc groups start where the previous one ended; consumeNumber/parsePoints accept the SVG number grammar without panicking and always make progress. Basic-shape outlines, viewBox/preserveAspectRatio mapping and reference-cycle handling are NOT under contract; the arc's 'lies on the given ellipse' clause is decided only for the end points (centre parameterisation uses sqrt/atan2, uninterpreted).",
+   note="float-as-real; strconv.ParseFloat, math.Sqrt/Atan2/Sin/Cos assumed (extern/uninterpreted); drawing back end calls are not under contract (the proved object is the segment list the parser builds); machine-int-as-math",
+   ref="DESIGN.md §4 C18")
+
+CLAIMED["C07"] = dict(
+   text="Absence of panics and termination are proved, for all inputs, for the parsers that are under contract as `nopanic` with loop/recursion measures: the whole CSS tokenizer and rule/declaration parsers (css/parser tokenizer.go, parser.go: shared with C06), the <An+B> parser (nth.go), the complete selector parser (css/selector/parser.go: every method of the hand-written recursive-descent parser incl. escapes, strings, attribute operators, pseudo-class arguments, nth), @page selector parsing (tree.parsePageSelectors, one defect found and fixed), the SVG number / point-list / path-data / opacity / url / viewBox parsers and the counter-style symbol algorithms. Property validators and shorthand expanders (css/validation), descriptor parsers, colour parsing, utils/urls.go data: handling and the HTML attribute readers are NOT under contract yet and are not decided by this check.",
+   note="assumed: extern contracts of strconv/strings/bytes/utf8/regexp in contracts/extern.spec; token well-formedness of caller-supplied token slices (no nil token, identifiers/numbers with non-empty text) is a precondition of ParseNth/parsePageSelectors, established by the tokenizer but not proved through Compound values; one waived index obligation in matchInt (regexp capture-group count); machine-int-as-math; stack depth of recursion not modelled",
+   ref="DESIGN.md §4 C07")
+
 NOT_YET = {}
 
 NA = {
